@@ -580,6 +580,59 @@ func txOpenIter(r *rng, add func(violation)) {
 	}
 }
 
+// txThenDB: a Statement that the DB has not seen is run k times in a row inside one transaction, the transaction
+// ends, and the same Statement is run on the DB (and in a second transaction) with the same arguments: whatever the
+// transaction prepared for itself is gone with it, the later calls neither fail nor reach a closed driver statement.
+func txThenDB(r *rng, add func(violation)) {
+	desc := fmt.Sprintf("statement run in a transaction, then on the DB seed-state %d", r.s)
+	currentCase.Store(desc)
+	viol := func(prop, name, detail string) { add(violation{prop, name, hx(desc), detail}) }
+	sqldb, f := openFake()
+	db := sqlair.NewDB(sqldb)
+	defer func() { sqldb.Close(); dropFakeDB(f.name) }()
+	kind := r.intn(4)
+	args := txArgs(kind, r)
+	run := func(q *sqlair.Query) error {
+		if kind == 1 || kind == 3 {
+			var ps []Person
+			return q.GetAll(&ps)
+		}
+		return q.Run()
+	}
+	tx, err := db.Begin(context.Background(), nil)
+	if err != nil {
+		return
+	}
+	k := 1 + r.intn(8)
+	for i := 0; i < k; i++ {
+		if c := txErrClass(run(tx.Query(context.Background(), txStmts[kind], args...))); c != "ok" {
+			viol("C10", "call-in-transaction-failed", fmt.Sprintf("run %d of %d: %s", i+1, k, c))
+			return
+		}
+	}
+	if r.chance(1, 2) {
+		tx.Commit()
+	} else {
+		tx.Rollback()
+	}
+	for i := 0; i < 2; i++ {
+		if c := txErrClass(run(db.Query(context.Background(), txStmts[kind], args...))); c != "ok" {
+			viol("C10", "call-on-the-DB-after-a-transaction-failed", fmt.Sprintf("after %d runs in a transaction that has ended: %s", k, c))
+		}
+	}
+	if tx2, err := db.Begin(context.Background(), nil); err == nil {
+		if c := txErrClass(run(tx2.Query(context.Background(), txStmts[kind], args...))); c != "ok" {
+			viol("C10", "call-in-a-later-transaction-failed", c)
+		}
+		tx2.Rollback()
+	}
+	for _, ev := range f.log() {
+		if strings.HasSuffix(ev.Kind, "-on-closed") {
+			viol("C10", "closed-driver-statement-executed", ev.Kind+" "+ev.SQL)
+		}
+	}
+}
+
 type txStats struct {
 	Later      int            `json:"scripts_with_a_later_transaction_open_after_the_finish"`
 	Cases      int            `json:"cases"`
@@ -658,6 +711,7 @@ func cmdTx(args []string) int {
 		txRace(r.fork(), addViol)
 		txFault(r.fork(), addViol)
 		txOpenIter(r.fork(), addViol)
+		txThenDB(r.fork(), addViol)
 		st.Races++
 	}
 	cw.Flush()
